@@ -49,6 +49,10 @@ class Ob:
         key = f"{self.id}/{construct}" + (f"/{detail}" if detail else "")
         if any(f.key == key for f in self.findings):
             return
+        drift = self._calling_convention_changed(construct)
+        if drift is not None:
+            self.undecide(f"{construct.rsplit('.', 1)[-1]}: {drift} - the rule reads calls by the pinned calling convention (`{detail or message[:40]}` not confirmed)")
+            return
         through = getattr(self, "reads_through_list", {}).get(construct)
         if through is not None:
             # nothing positive is known: the rule looked for tests on the way from a value's source to its use, and
@@ -56,6 +60,47 @@ class Ob:
             self.undecide(f"{construct.rsplit('.', 1)[-1]} takes values from the generator helper `{through}` through an intermediate list, which this rule does not follow (`{detail or message[:40]}` not confirmed)")
             return
         self.findings.append(Finding(key, where, message, witness))
+
+    def _calling_convention_changed(self, construct: str) -> str | None:
+        """The finding sits in (or in a caller of) a pinned function one of whose REQUIRED parameters has become
+        optional or has gone: calls of it may now be written in a form the pinned tree did not have
+        (``format_curie(reference)`` for ``format_curie(prefix, identifier)``), which the rules do not read."""
+        cx = getattr(self, "cx", None)
+        if cx is None:
+            return None
+        drifted = cx.model.__dict__.get("_drifted")
+        if drifted is None:
+            import json as _json
+
+            drifted = {}
+            try:
+                req = _json.loads((pathlib.Path(__file__).parent / "known_required.json").read_text())
+            except Exception:  # noqa: BLE001
+                req = {}
+            for q, names in req.items():
+                f = cx.model.functions.get(q)
+                if f is None:
+                    continue
+                now_required = {p.name for p in f.params if p.default is None and p.kind in ("pos", "kwonly")}
+                lost = [n for n in names if n not in now_required and n not in ("self", "cls")]
+                if lost:
+                    drifted[f.name] = f"`{f.name}` no longer requires {lost} (the calling convention of a pinned function has changed)"
+            cx.model.__dict__["_drifted"] = drifted
+        if not drifted:
+            return None
+        fn = cx.model.functions.get(construct)
+        if fn is None:
+            return None
+        if fn.name in drifted:
+            return drifted[fn.name]
+        import ast as _ast
+
+        for n in _ast.walk(fn.node):
+            if isinstance(n, _ast.Call):
+                nm = n.func.attr if isinstance(n.func, _ast.Attribute) else n.func.id if isinstance(n.func, _ast.Name) else None
+                if nm in drifted:
+                    return drifted[nm]
+        return None
 
     def funnel(self, construct: str, where: str, message: str, through: bool, expected: str, witness: str = "", detail: str = "callee", wrong: bool = False) -> None:
         """Verdict of a wrapper rule ("f answers through g").  A return that bypasses ``g`` NEXT TO one that goes
@@ -153,6 +198,7 @@ def evaluate(prop: str, cx: Cx) -> list[Ob]:
     for ob_id, rule, floor, fn in REGISTRY.get(prop, []):
         ob = Ob(ob_id, rule, floor)
         ob.reads_through_list = cx.model.__dict__.setdefault("_reads_through_list", {})  # filled as summaries are built
+        ob.cx = cx
         try:
             fn(cx, ob)
         except AnalysisError as e:
